@@ -182,8 +182,10 @@ def initChans {V} (r : Runner V) : Chans V :=
 def modChan {V} (cm : Chans V) (k : Key) (f : Chan V → Chan V) : Chans V :=
   cm.map (fun p => if p.1 == k then (p.1, f p.2) else p)
 
-/-- one `reportSkip([from])` on channel `k`; returns whether it became skipped -/
+/-- one `reportSkip([from])` on channel `k`; returns whether it became skipped
+    (pregel channels ignore skips: `pregelChannel.reportSkip` returns false) -/
 def skipOne {V} (dag : Bool) (cm : Chans V) (k from_ : Key) : Chans V × Bool :=
+  if !dag then (cm, false) else
   match alookup k cm with
   | none => (cm, false)
   | some c =>
@@ -244,16 +246,25 @@ abbrev Done (V : Type) := Key × V
 def Runner.call? {V} (r : Runner V) (k : Key) : Option (Node V) :=
   if k == START then some r.start else r.node? k
 
+/-- the targets selected by the branches of a node on its output (pure part of
+    `calculateBranch`): every branch condition is evaluated; a condition returning a node
+    that is not one of its ends is an error -/
+def selectOf {V} (n : Node V) (out : V) : Except Err (List Key) := do
+  let sel ← n.branches.mapM (fun b => do
+    let ws ← b.cond out
+    if ws.all b.ends.contains then pure ws else throw { cls := .badBranchEnd })
+  pure sel.flatten
+
+/-- ends of some branch of the node that no branch selected -/
+def skippedOf {V} (n : Node V) (selected : List Key) : List Key :=
+  (n.branches.flatMap (·.ends)).eraseDups.filter (fun e => !selected.contains e)
+
 /-- `calculateBranch`: evaluate every branch of the node on its output; nodes that are an
     end of some branch and selected by none are reported skipped. -/
 def calcBranch {V} (r : Runner V) (cm : Chans V) (n : Node V) (out : V) :
     Except Err (Chans V × List Key) := do
-  let sel ← n.branches.mapM (fun b => do
-    let ws ← b.cond out
-    if ws.all b.ends.contains then pure ws else throw { cls := .badBranchEnd })
-  let selected := sel.flatten
-  let skipped := (n.branches.flatMap (·.ends)).eraseDups.filter (fun e => !selected.contains e)
-  let cm' ← reportBranch r cm n.key skipped
+  let selected ← selectOf n out
+  let cm' ← reportBranch r cm n.key (skippedOf n selected)
   pure (cm', selected)
 
 structure Resolved (V : Type) where
@@ -267,18 +278,20 @@ def addWrite {V} (ws : List (Key × List (Key × V))) (to from_ : Key) (v : V) :
 def addDep (ds : List (Key × List Key)) (to from_ : Key) : List (Key × List Key) :=
   aset to ((alookup to ds).getD [] ++ [from_]) ds
 
+/-- one iteration of `resolveCompletedTasks` -/
+def resolveStep {V} (r : Runner V) (acc : Resolved V) (t : Done V) : Except Err (Resolved V) :=
+  match r.call? t.1 with
+  | none => pure acc
+  | some n => do
+    let (cm', selected) ← calcBranch r acc.cm n t.2
+    pure { cm := cm',
+           writes := (selected ++ n.writeTo).foldl (fun ws k => addWrite ws k t.1 t.2) acc.writes,
+           deps := selected.foldl (fun ds k => addDep ds k t.1)
+                     (n.controls.foldl (fun ds k => addDep ds k t.1) acc.deps) }
+
 /-- `resolveCompletedTasks` -/
 def resolve {V} (r : Runner V) (cm : Chans V) (done : List (Done V)) : Except Err (Resolved V) :=
-  done.foldlM (fun (acc : Resolved V) (t : Done V) => do
-    match r.call? t.1 with
-    | none => pure acc
-    | some n =>
-      let deps1 := n.controls.foldl (fun ds k => addDep ds k t.1) acc.deps
-      let (cm', selected) ← calcBranch r acc.cm n t.2
-      let deps2 := selected.foldl (fun ds k => addDep ds k t.1) deps1
-      let next := selected ++ n.writeTo
-      let writes := next.foldl (fun ws k => addWrite ws k t.1 t.2) acc.writes
-      pure { cm := cm', writes := writes, deps := deps2 }) { cm := cm, writes := [], deps := [] }
+  done.foldlM (resolveStep r) { cm := cm, writes := [], deps := [] }
 
 inductive Next (V : Type) where
   | result (v : V)
